@@ -254,6 +254,20 @@ def run_defaults(res):
             res["evals"] += 1
             try:
                 d = mappyfile.create(t, version=ver)
+                # objects created earlier are the caller's: editing them must not change what create returns next
+                first = D.typed(d)
+                for k, v in list(d.items()):
+                    if isinstance(v, list):
+                        v.append(99)
+                        if v:
+                            v[0] = "edited"
+                    elif isinstance(v, dict):
+                        v["edited"] = 1
+                again = mappyfile.create(t, version=ver)
+                if D.typed(again) != first:
+                    raise AssertionError("create() returns %r after an earlier created object was edited in place (first time %r)" % (
+                        {k: v for k, v in again.items() if isinstance(v, (list, dict))}, "the declared defaults"))
+                d = again
                 out = impl.dumps(copy.deepcopy(d))
                 d2 = impl.loads(out)
                 msgs = impl.validate(d2, schema_name=t, version=ver)
